@@ -7,7 +7,7 @@ Step-level no-lost-wakeup obligations (register / fence / re-check / park) are t
 import os, sys
 sys.path.insert(0, os.path.dirname(__file__))
 import chanlib
-from vlib import VERIF
+from vlib import VERIF, CHAN_RUSTFLAGS
 
 THEOREMS = chanlib.names("C05")
 # ---- step-level B-model obligations/ties of other agents: each exposes THEOREMS (+MODULE) / obligations(ctx) and tie(ctx)
@@ -16,7 +16,7 @@ LAYER_B = ["spscb", "mpmc2b", "rdvb", "mpsc3b", "lockb"]
 def run(ctx):
     ctx.lean_obligations("Fv.Props.C05", THEOREMS)
     drv = ctx.lean_exe("fvdrv_chan")
-    h = ctx.cargo_build("chan", "chanh", rustflags="--cfg loom")
+    h = ctx.cargo_build("chan", "chanh", rustflags=CHAN_RUSTFLAGS)
     ctx.assumptions += [a for a in chanlib.ASSUMPTIONS if a not in ctx.assumptions]
     ctx.assumptions.append("C05: liveness in safety form (no enabled operation is blocked at quiescence); that a runnable thread is eventually scheduled, and that spin/yield re-contention loops terminate under an unfair scheduler, is assumed")
     if ctx.replay:
